@@ -14,14 +14,14 @@ PROPS = {
     "C05": dict(verus=["U-TS", "U-DHS", "U-TXT", "U-TBSV", "U-MEMV", "U-ENC", "U-HVECV", "U-SSINK"], kani=["U-HVEC", "U-STK"], bounded=["U-PARSE-B"], findings=[]),
     "C06": dict(verus=["U-SM", "U-TS"], kani=[], bounded=["U-PARSE-B"], findings=[]),
     "C07": dict(verus=["U-TS", "U-SER"], kani=[], bounded=["U-PARSE-B"], findings=[]),
-    "C08": dict(verus=["U-ESCQ"], kani=["U-ESC"], bounded=["U-PARSE-B"], findings=[]),
+    "C08": dict(verus=["U-ESCQ", "U-ESCT"], kani=["U-ESC"], bounded=["U-PARSE-B"], findings=[]),
     "C09": dict(verus=["U-TS", "U-SM"], kani=[], bounded=["U-PARSE-B"], findings=[]),
     "C10": dict(verus=["U-TS", "U-MEMV"], kani=["U-MEM"], bounded=["U-PARSE-B"], findings=[]),
     "C11": dict(verus=["U-TS"], kani=[], bounded=["U-PARSE-B"], findings=[("F-C11-1", "verus", "U-TS", "F-C11-1")]),
     "C12": dict(verus=["U-TS"], kani=[], bounded=["U-PARSE-B"], findings=[]),
     "C13": dict(verus=["U-TS", "U-TXT", "U-ENC", "U-SSINK"], kani=["U-ESC"], bounded=["U-PARSE-B"], findings=[]),
     "C14": dict(verus=["U-SM", "U-TS", "U-SER", "U-TXT"], kani=[], bounded=["U-PARSE-B"], findings=[]),
-    "C15": dict(verus=["U-SM", "U-TS", "U-SER", "U-NTH", "U-ESCQ", "U-DHS", "U-TXT", "U-TBSV", "U-MEMV", "U-ENC", "U-HVECV", "U-SSINK"], kani=["U-MEM", "U-TBS", "U-HVEC", "U-ESC"], bounded=[], findings=[]),
+    "C15": dict(verus=["U-SM", "U-TS", "U-SER", "U-NTH", "U-ESCQ", "U-DHS", "U-TXT", "U-TBSV", "U-MEMV", "U-ENC", "U-HVECV", "U-SSINK", "U-ESCT"], kani=["U-MEM", "U-TBS", "U-HVEC", "U-ESC"], bounded=[], findings=[]),
     "C16": dict(verus=["U-SM", "U-TBSV"], kani=["U-SEL", "U-STK"], bounded=["U-PARSE-B"], findings=[]),
 }
 
